@@ -98,7 +98,7 @@ Fixpoint steps_ok5 (l : list op) (w : world) : Prop :=
   | [] => True
   | o :: rest =>
     TreeFacts w /\ Known04 T LATEST w o = false /\ Known05 w o = false /\
-    Pending04 T w o = false /\ Pending05 w o = false /\
+    Pending04 w o = false /\ Pending05 w o = false /\
     match run o w with Val (_, w') => steps_ok5 rest w' | _ => True end
   end.
 
